@@ -102,6 +102,11 @@ Proof.
   - rewrite Nat.ltb_irrefl. destruct (Nat.ltb_spec c (Datatypes.S c)); [|lia]. non_commutative_ring.
   - destruct (Nat.ltb_spec c n), (Nat.ltb_spec c (Datatypes.S n)); try lia; non_commutative_ring.
 Qed.
+Lemma ncsumn_delta' (c : nat) (v : S) n :
+  sumn (fun j => if Nat.eqb c j then v else s0) n = if Nat.ltb c n then v else s0.
+Proof.
+  rewrite <- ncsumn_delta. apply sumn_ext. intros j _. rewrite Nat.eqb_sym. reflexivity.
+Qed.
 Lemma ncsumn_delta_fun (c : nat) (f : nat -> S) n :
   sumn (fun j => if Nat.eqb j c then f j else s0) n = if Nat.ltb c n then f c else s0.
 Proof.
